@@ -63,37 +63,14 @@ impl BerEncoder for SnmpInt {
                 buf.push_tag_len(TAG_INT, buf.len() - start)
             }
             Ordering::Less => {
-                let start = buf.len();
-                let mut left = -self.0;
-                // Calculate used octets
-                let mut ln = 0;
-                while left > 0 {
-                    ln += 1;
-                    left >>= 8;
+                // Minimal two's complement: drop leading 0xff octets
+                // while the next octet still carries the sign bit
+                let octets = self.0.to_be_bytes();
+                let mut start = 0;
+                while start < 7 && octets[start] == 0xff && octets[start + 1] & 0x80 != 0 {
+                    start += 1;
                 }
-                // Calculate complement
-                let d = 1 << (ln * 8 - 1);
-                left = -self.0;
-                let comp = if d < left { d << 8 } else { d };
-                // Write octets
-                if comp == left {
-                    for _ in 0..ln - 1 {
-                        buf.push_u8(0)?;
-                    }
-                    buf.push_u8(0x80)?;
-                } else {
-                    left = comp - left;
-                    loop {
-                        if left < 0xff {
-                            buf.push_u8(0x80 | (left as u8))?;
-                            break;
-                        }
-                        buf.push_u8((left & 0xff) as u8)?;
-                        left >>= 8;
-                    }
-                }
-                // Write tag and length
-                buf.push_tag_len(TAG_INT, buf.len() - start)
+                buf.push_tagged(TAG_INT, &octets[start..])
             }
         }
     }
